@@ -8,6 +8,7 @@ package shadow
 import (
 	"fmt"
 	"math/rand/v2"
+	"os"
 	"strings"
 
 	"github.com/gdamore/tcell/v2"
@@ -16,7 +17,9 @@ import (
 
 var cond = func() *runewidth.Condition {
 	c := runewidth.NewCondition()
-	c.EastAsianWidth = false
+	// tcell switches East Asian ambiguous width off unless RUNEWIDTH_EASTASIAN is set; the
+	// child runs under RUNEWIDTH_EASTASIAN=1 use the same rule on the model's side
+	c.EastAsianWidth = os.Getenv("RUNEWIDTH_EASTASIAN") == "1"
 	return c
 }()
 
